@@ -96,12 +96,22 @@ def evaluate(case):
             with warnings.catch_warnings(), np.errstate(all="ignore"):
                 warnings.simplefilter("ignore")
                 try:
-                    fl = fp.FlowPropertiesTwoPhase.from_table(tbf, krt, rho, 0.1, 0.1, p_i)
+                    krt_in = {k: v[::-1].copy() for k, v in krt.items()} if case.get("kr_desc") else krt
+                    fl = fp.FlowPropertiesTwoPhase.from_table(tbf, krt_in, rho, 0.1, 0.1, p_i)
                 except Exception as e:  # noqa: BLE001
                     viol.append(V("from_table/raises", f"{type(e).__name__}: {e}", case=case))
                     break
             ms = np.asarray(fl.pvt_props["m-scaled"], dtype=float)
             m_i = float(fl.m_i)
+            # the wrapper's pseudopressure must be the same integral (row order of the rel-perm table is free)
+            with np.errstate(all="ignore"):
+                ratio = ms[1:] / want[1:]
+            if not np.allclose(ratio, ratio[len(ratio) // 2], rtol=1e-9, atol=0):
+                viol.append(V("from_table/pseudopressure-is-the-integral", "scaled pseudopressure of from_table is not "
+                              "proportional to the integral of the documented total mobility"
+                              + (" when the rel-perm table is listed by descending So" if case.get("kr_desc") else ""),
+                              case=case))
+                break
             if not np.all(np.diff(ms) > 0):
                 viol.append(V("from_table/m-scaled-increasing", "scaled pseudopressure from from_table is not "
                               f"strictly increasing (min step {np.diff(ms).min():.3g})", case=case))
@@ -124,11 +134,13 @@ def evaluate(case):
 
 def cases(tier, seed):
     fams = ["constant", "invB-linear", "kinked", "vaporised"]
-    grids = ["uniform", "geometric", "irregular"]
+    grids = ["uniform", "geometric", "irregular", "integer"]
     out = [{"family": "shipped", "grid": "shipped", "kr": k, "rho": r, "factor": f}
            for k, r, f in itertools.product(range(len(KRS)), range(len(RHOS)), [1.0, 7.0])]
     for fam, g, k, r, f in itertools.product(fams, grids, range(len(KRS)), range(len(RHOS)), [1.0, 7.0]):
         out.append({"family": fam, "grid": g, "kr": k, "rho": r, "factor": f, "seed": seed})
+        if f == 1.0 and g == "uniform":
+            out.append({"family": fam, "grid": g, "kr": k, "rho": r, "factor": f, "seed": seed, "kr_desc": True})
     if seed:
         f = round(0.5 + 20 * seed_offset(seed), 3)
         out += [dict(c, factor=f) for c in out if c["factor"] == 7.0 and c["kr"] == 1]
